@@ -41,6 +41,11 @@ RULE = (
     'same object is converted again and judged for its new contents; names outside NFC / NFKC for unrelated '
     'coordinates, masks and the pixel dimension; pixel / bin dimensions of length 2, 3, 4 with exactly 2, 3, 4 events '
     'per bin; one first convert() per shard in a fresh interpreter that imports only the entry module; '
+    'round 8: WHERE THE ORIGIN LIVES - only on the events, only as a dense coordinate of the bins (bin edges or one value '
+    'per bin: what da.bins.drop_coords(origin) leaves), or both - x every elastic origin/target pair, both inelastic modes '
+    'and a conversion without scattering, on 2-d grids and their views; dense-only also as an item of a Dataset next to an '
+    'ordinary event item (either order); for dense-only the events must come through untouched and the dense coordinate '
+    'must equal what dense data gets (bit for bit) and the long-double definition; '
     'distinct = (origin, target, layout, event dtype, geometry kind, edges, container) signatures'
 )
 ASSUMPTIONS = [
@@ -384,6 +389,11 @@ class Monitor:
         ctx = self.ctx
         try:
             out_tab = out.bins.constituents['data']
+            in_tab0 = d.bins.constituents['data']
+            # where the origin lives: on the events, as a dense (bin-edge / per-bin) coordinate, or both.  The events get
+            # the target iff the conversion reads something at event level (roles(): everything not in ev_keep)
+            ev_origin = origin in in_tab0.coords
+            ev_read = ev_origin or any(str(k) not in pre['ev_keep'] for k in in_tab0.coords.keys())
             geom_target = target in ('two_theta', 'L1', 'L2', 'Ltotal', 'incident_beam', 'scattered_beam')
             if geom_target:
                 # a geometry target is a per-pixel coordinate: it must equal what the same conversion gives for
@@ -401,11 +411,11 @@ class Monitor:
                     ctx.violation('geometry_value', f'coordinate {target} of binned data differs from the one dense '
                                   'data with the same pixels gets', case, part='geometry')
                 self.geometry_definition(d, pg, target, scatter, case)
-                if origin not in out_tab.coords or fp(np.asarray(out_tab.coords[origin].values)[event_index(out.data)]) != \
-                        fp(np.asarray(d.bins.constituents['data'].coords[origin].values)[event_index(d.data)]):
+                if ev_origin and (origin not in out_tab.coords or fp(np.asarray(out_tab.coords[origin].values)[event_index(out.data)]) != \
+                        fp(np.asarray(d.bins.constituents['data'].coords[origin].values)[event_index(d.data)])):
                     ctx.violation('coord_changed', f'event coordinate {origin!r} lost or changed by a geometry '
                                   'conversion', case, part='ev_origin')
-            elif target not in out_tab.coords:
+            elif ev_read and target not in out_tab.coords:
                 ctx.violation('no_event_target', f'no event coordinate {target!r} in the result', case)
                 return
             # ---- preservation
@@ -434,6 +444,15 @@ class Monitor:
                         ctx.violation('mask_changed' if 'mask' in part else 'coord_changed',
                                       f'{label} {k!r} lost or changed', case, part=part)
             if geom_target:
+                return
+            if not ev_read:
+                # the origin exists only as a dense coordinate (e.g. after da.bins.drop_coords(origin)): the events were
+                # judged above (all of it unchanged); the dense coordinate is converted exactly as for dense data
+                ctx.event('origin only as a dense coordinate: events untouched')
+                if origin not in d.coords or d.coords[origin].bins is not None:
+                    ctx.count('origin neither on the events nor dense (not judged)')
+                    return
+                self.dense_origin(d, out, origin, target, scatter, case, where='dense only')
                 return
             # ---- differential: dense twin
             idx = event_index(d.data)
@@ -524,26 +543,79 @@ class Monitor:
                                       dict(case, bin=int(flat_i), got=[repr(x) for x in g_[:3]],
                                            expected=[repr(x) for x in np.asarray(pw.values)[:3]]), part='pixel_twin')
                         break
-            # ---- bin-edge coordinate converted with the same function
-            if origin in d.coords and is_edges(d.coords[origin], d.data):
-                if target not in out.coords:
-                    ctx.violation('edges_lost', f'bin-edge coordinate {origin!r} not converted to {target!r}', case)
-                else:
-                    ecoords = {k: v for k, v in d.coords.items() if v.bins is None}
-                    edge = d.coords[origin]
-                    shape = {dd: (edge.sizes[dd] if dd in edge.dims else d.sizes[dd]) for dd in d.dims}
-                    etwin = sc.DataArray(sc.ones(dims=list(shape), shape=list(shape.values())), coords=ecoords)
-                    edense = self.scn.convert(etwin, origin, target, scatter=scatter)
-                    w = edense.coords[target]
-                    g = out.coords[target]
-                    w = w.transpose(g.dims) if set(w.dims) == set(g.dims) and w.dims != g.dims else w
-                    ctx.event('edges')
-                    if g.unit != w.unit or not same_bits(np.asarray(g.values), np.asarray(w.values)):
-                        ctx.violation('edge_value', f'bin-edge coordinate {target} differs from the dense formula',
-                                      case, part='edges')
+            # ---- bin-edge (or per-bin) coordinate converted with the same function
+            if origin in d.coords and d.coords[origin].bins is None:
+                self.dense_origin(d, out, origin, target, scatter, case, where='next to the event coordinate')
         except Exception:  # noqa: BLE001
             ctx.oracle_error('C06 monitor')
 
+
+    def dense_origin(self, d, out, origin, target, scatter, case, where):
+        """The dense origin coordinate of binned data (bin edges or one value per bin) gets the value the dense formula
+        gives: bit for bit what dense data with the same coordinates gets, and the long-double definition."""
+        ctx = self.ctx
+        edge = d.coords[origin]
+        kind = 'edges' if is_edges(edge, d.data) else 'per-bin values'
+        if target not in out.coords or out.coords[target].bins is not None:
+            ctx.violation('edges_lost', f'dense coordinate {origin!r} ({kind}) not converted to {target!r}', case,
+                          part='edges', where=where)
+            return
+        ecoords = {k: v for k, v in d.coords.items() if v.bins is None}
+        shape = {dd: (edge.sizes[dd] if dd in edge.dims else d.sizes[dd]) for dd in d.dims}
+        etwin = sc.DataArray(sc.ones(dims=list(shape), shape=list(shape.values())), coords=ecoords)
+        edense = self.scn.convert(etwin, origin, target, scatter=scatter)
+        w = edense.coords[target]
+        g = out.coords[target]
+        w = w.transpose(g.dims) if set(w.dims) == set(g.dims) and w.dims != g.dims else w
+        ctx.event('edges')
+        ctx.event(f'dense origin coordinate ({where})')
+        if g.unit != w.unit or g.dtype != w.dtype or not same_bits(np.asarray(g.values), np.asarray(w.values)):
+            ctx.violation('edge_value', f'dense coordinate {target} ({kind}) differs from the dense formula',
+                          case, part='edges', where=where)
+        if (origin, target) in ELASTIC_DEF:
+            self.dense_definition(d, edge, g, origin, target, scatter, case, where)
+
+    def dense_definition(self, d, edge, g, origin, target, scatter, case, where):
+        ctx = self.ctx
+        from rv.oracle import si
+        try:
+            back = {target: origin} if target in g.dims and origin not in g.dims else {}
+            dims = [back.get(x, x) for x in g.dims]
+            shape = list(g.shape)
+            if not set(edge.dims) <= set(dims) or any(edge.sizes[x] != shape[dims.index(x)] for x in edge.dims):
+                ctx.count('dense definition: result has other dims than the origin coordinate (not judged)')
+                return
+            gm = GeometryModel(d, scatter, pixel_fetch(d, dims, shape))
+            x = _si_values(sc.broadcast(edge, dims=dims, shape=shape) if edge.ndim else edge)
+            exp, si_unit = elastic_definition(origin, target, x, gm)
+            if si.dim(g.unit) != si.dim(sc.Unit(si_unit)):
+                ctx.violation('edge_definition', f'dense coordinate {target} has unit {g.unit}', case,
+                              part='definition-unit', where=where)
+                return
+            exp = np.broadcast_to(exp / si.factor(g.unit), x.shape)
+            tol, prec = self.tol_for(g.dtype, gm)
+            if edge.dtype == sc.DType.float32:
+                tol, prec = TOL32, 'float32'
+            judged = np.ones(x.shape, dtype=bool)
+            if gm.derived_angle:
+                judged &= np.broadcast_to(gm.get('two_theta'), x.shape) >= SMALL_ANGLE
+            gv = np.asarray(g.values)
+            err = np.asarray(si.relerr(gv[judged], exp[judged]), dtype=np.float64)
+            err = np.where(np.isfinite(np.asarray(gv[judged], dtype=np.float64)), err, np.inf)
+        except Exception:  # noqa: BLE001
+            ctx.oracle_error('C06 dense-coordinate definition')
+            return
+        ctx.event('dense origin coordinate: definition')
+        if not err.size:
+            return
+        worst = float(np.max(err))
+        ctx.dev(f'dense coordinate definition relerr {prec}: {target} from {origin}', worst)
+        if not worst <= tol:
+            i = int(np.argmax(err))
+            ctx.violation('edge_definition', f'dense coordinate {target} differs from the definition evaluated for the '
+                          f"coordinate value and the pixel's geometry: relative error {worst:.3g} > {tol:g}",
+                          dict(case, got=repr(gv[judged][i]), expected=repr(float(exp[judged][i]))),
+                          part='definition', where=where, precision=prec)
 
     # ---------------------------------------------------------------- definitions
     def tol_for(self, dtype, gm):
@@ -919,7 +991,7 @@ def gen(rng, ctx, force=None):
     if layout in ('slice_pixels', 'one_pixel'):
         npix = max(npix, 2)
     grid = layout in ('2d', 'transposed', 'slice_tof') or (layout in ('slice_pixels', 'one_pixel', 'permuted')
-                                                           and rng.random() < 0.5)
+                                                           and (rng.random() < 0.5 or bool(force.get('grid'))))
     nt = int(rng.integers(1, 6)) if grid else None
     if force.get('nt') and grid:
         nt = int(force['nt'])
@@ -1033,9 +1105,14 @@ def gen(rng, ctx, force=None):
             coords['final_energy'] = sc.array(dims=['pixel'], values=rng.uniform(1, 50, size=npix), unit='meV')
         ctx.hit('elastic target with bystander energy coordinates' + (' (both)' if which == 2 else ''))
     edges = bool(nt) and rng.random() < 0.7
+    if force.get('origin_at'):
+        # where the origin lives is forced: 'events' (no dense coordinate), 'both', or 'dense' (run() takes the event
+        # coordinate away afterwards: what da.bins.drop_coords(origin) leaves)
+        edges = bool(nt) and force['origin_at'] != 'events'
+    centres = edges and force.get('dense_kind') == 'per-bin values'
     if edges:
         lo, hi = (float(np.min(vals)), float(np.max(vals))) if nbuf else (1.0, 2.0)
-        ev = np.sort(rng.uniform(lo * 0.9, hi * 1.1 + 1, size=nt + 1))
+        ev = np.sort(rng.uniform(lo * 0.9, hi * 1.1 + 1, size=nt + (0 if centres else 1)))
         coords[origin] = sc.array(dims=[origin], values=ev, unit=ounit)
     masks = {nm['pxmask']: sc.array(dims=['pixel'], values=rng.random(npix) < 0.3)}
     if nt and (force or rng.random() < 0.5):
@@ -1090,7 +1167,8 @@ def gen(rng, ctx, force=None):
         da = da.rename_dims({'pixel': nm['dim']})
     nevents = int(da.bins.size().data.sum().value) if layout in NONCOMPACT else int(sizes.sum())
     shape_class = f'{da.data.ndim}-d'
-    sig = (origin, tgt, mode, layout, evdt, geom_kind, 'edges' if edges else 'noedges', ounit, lunit, shape_class)
+    sig = (origin, tgt, mode, layout, evdt, geom_kind, ('per-bin' if centres else 'edges') if edges else 'noedges', ounit, lunit,
+           shape_class)
     return da, origin, tgt, sig, {'layout': layout, 'nevents': nevents, 'geometry': geom_kind,
                                   'mode': mode, 'edges': edges, **({'bystander': bystander} if by else {})}
 
@@ -1241,6 +1319,29 @@ def as_dataset(da, origin, rng, with_dense):
         items['normalisation'] = sc.DataArray(sc.array(dims=list(da.dims), values=rng.random(da.shape), unit='counts'),
                                               coords=dict(da.coords.items()), masks=dict(da.masks.items()))
     return sc.Dataset(items)
+
+
+def drop_event_origin(da, origin):
+    """The same bins (same begin / end, same buffer, same view) whose events do not carry ``origin``: built from the
+    constituents, so that non-compact layouts stay what they are."""
+    c = da.bins.constituents
+    tab = c['data'].drop_coords(origin)
+    binned = sc.bins(begin=c['begin'], end=c['end'], dim=c['dim'], data=tab)
+    return sc.DataArray(binned, coords=dict(da.coords.items()), masks=dict(da.masks.items()))
+
+
+# (round 8) WHERE THE ORIGIN LIVES: binned data may carry the origin on the events only, as a dense coordinate of the bins
+# only (bin edges, or one value per bin: what is left after da.bins.drop_coords(origin)), or both.  Every elastic
+# origin / target pair (and, as siblings, both inelastic modes and a conversion without scattering) in each of the three.
+ORIGIN_AT = {'dense': 'only as a dense coordinate', 'events': 'only on the events', 'both': 'on the events and dense'}
+ORIGIN_TARGETS = sorted(POWER) + [('tof', 'energy_transfer:direct'), ('tof', 'energy_transfer:indirect'),
+                                  ('tof', 'wavelength:noscatter')]
+ORIGIN_LAYOUTS = ['2d', 'transposed', 'slice_tof', 'permuted', 'slice_pixels', 'one_pixel']
+DENSE_KINDS = ['bin edges', 'per-bin values']
+
+
+def origin_label(at, t):
+    return f'origin {ORIGIN_AT[at]} x {target_label(t)}'
 
 
 def other_target(da, origin, tgt, k):
@@ -1760,6 +1861,19 @@ def forced_programs(index):
                     'geom': 'positions', 'layout': ['2d', '1d', 'transposed'][(index + j) % 3], 'npix': n,
                     'nt': (2, 3, 4)[(index + j + 1) % 3], 'bin_size': (2, 3, 4)[(index + 2 * j) % 3],
                     'hit': f'pixel dimension of length {n}'})
+    # round 8: where the origin lives x every elastic pair (+ inelastic, without scattering); dense-only also inside a
+    # Dataset next to an ordinary event item
+    for j, t in enumerate(ORIGIN_TARGETS):
+        for a, at in enumerate(ORIGIN_AT):
+            if at != 'dense' and (j + index) % 2:
+                continue      # 'events' / 'both' existed before as random draws: half of the pairs per shard
+            out.append({'program': 'single', 'target': t, 'origin_at': at, 'grid': True,
+                        'layout': ORIGIN_LAYOUTS[(j + a + index) % len(ORIGIN_LAYOUTS)],
+                        'dense_kind': DENSE_KINDS[(j + index + a) % 2], 'hit': origin_label(at, t)})
+    for j in range(3):
+        out.append({'program': 'single', 'target': ORIGIN_TARGETS[(3 * index + j) % len(ORIGIN_TARGETS)], 'origin_at': 'dense',
+                    'grid': True, 'layout': ORIGIN_LAYOUTS[(j + index + 1) % len(ORIGIN_LAYOUTS)], 'dataset': True,
+                    'dense_kind': DENSE_KINDS[(j + index) % 2]})
     out.append({'program': 'fresh', 'target': FRESH_TARGETS[index % len(FRESH_TARGETS)], 'geom': 'positions',
                 'placement': ALIAS_PLACEMENTS[index % 2 * 3], 'layout': ['2d', '1d'][index % 2], 'npix': 3, 'nt': 2})
     return out
@@ -1791,7 +1905,10 @@ def requirements(tier):
                        'write into a computed coordinate of the result': 200,
                        'conversion repeated after writes into the result': 60, 'write into the argument after the call': 40,
                        'conversion of the same object after an in-place change': 40,
-                       'first call in a fresh interpreter': 6},
+                       'first call in a fresh interpreter': 6,
+                       'origin only as a dense coordinate: events untouched': 60,
+                       'dense origin coordinate (dense only)': 60, 'dense origin coordinate (next to the event coordinate)': 60,
+                       'dense origin coordinate: definition': 60},
             'forced': ['layout:' + x for x in LAYOUTS] + ['evdtype:float32', 'evdtype:int64', 'mode:direct', 'mode:indirect']
             + ['gravity wavelength unit:' + u for u in ('angstrom', 'nm', 'm')]
             + ['binned gravity with per-pixel incident beams', 'hkl-family target',
@@ -1822,6 +1939,12 @@ def requirements(tier):
             + ['name outside NFC / NFKC:' + ascii(n) for n in ODD_NAMES]
             + [f'pixel dimension of length {n}' for n in (2, 3, 4)] + [f'every bin with exactly {n} events' for n in (2, 3, 4)]
             + ['fresh interpreter: import ' + m for m in FRESH_MODULES]
+            # round 8
+            + [origin_label(at, t) for at in ORIGIN_AT for t in ORIGIN_TARGETS]
+            + ['origin only as a dense coordinate: ' + k for k in DENSE_KINDS]
+            + ['origin only as a dense coordinate x layout:' + x for x in ORIGIN_LAYOUTS]
+            + ['Dataset mixing an item without event-level origin with an ordinary event item',
+               'Dataset mixing: item without event-level origin first', 'Dataset mixing: item without event-level origin last']
             + ['bystander event coordinate:' + n for n in RESERVED]
             + [f'bystander {n} x {target_label(t)}' for t, n in BYSTANDER_FIXED]
             + ['variances x ' + target_label(t) for t in VARIANCE_TARGETS]
@@ -1921,6 +2044,23 @@ def run(shard, ctx):
                 obj = as_dataset(da, origin, rng, dense_item)
                 container = 'Dataset'
                 ctx.hit('container:Dataset' + (' with a dense item' if dense_item else ''))
+            oat = force.get('origin_at') if force else None
+            if oat:
+                meta = dict(meta, origin=ORIGIN_AT[oat])
+                sig = ('origin ' + ORIGIN_AT[oat], *sig)
+                if oat == 'dense':
+                    slim = drop_event_origin(da, origin)
+                    ctx.hit('origin only as a dense coordinate: ' + force['dense_kind'])
+                    ctx.hit('origin only as a dense coordinate x layout:' + meta['layout'])
+                    if container == 'Dataset':
+                        # next to a measurement that still has its event-level origin, in either order
+                        first = (i + shard['index']) % 2 == 0
+                        rest = {k_: obj[k_] for k_ in obj.keys() if k_ != 'sample'}
+                        obj = sc.Dataset({'sample': slim, **rest} if first else {**rest, 'sample': slim})
+                        ctx.hit('Dataset mixing an item without event-level origin with an ordinary event item')
+                        ctx.hit('Dataset mixing: item without event-level origin ' + ('first' if first else 'last'))
+                    else:
+                        obj = slim
             sig = (*sig, container)
             meta = dict(meta, container=container)
             mon.meta = meta
